@@ -132,6 +132,7 @@ func checkC07(g *gen.G, s *sim.Sim, deep bool) {
 			g.Fatalf("%v n=%d t=%d: honest nodes %d and %d leave End with different results:\n  %s\n  %s\n%s", s.Proto, s.N, s.T, hs[0].Idx, nd.Idx, a, b, dkgTrace(s))
 		}
 	}
+	checkComposition(g, s, deep)
 	if hs[0].Err != nil {
 		g.Class("outcome:failure")
 		return
@@ -214,6 +215,106 @@ func checkC07(g *gen.G, s *sim.Sim, deep bool) {
 			g.Fatalf("%v n=%d t=%d: the threshold signature of honest participants %v is not valid under the DKG group key\n%s", s.Proto, s.N, s.T, signers, dkgTrace(s))
 		}
 		g.Class("thresholdSignatureChecked")
+	}
+}
+
+// calledDisqualified is the set of dealers an honest participant reported through its Disqualify callback.
+func calledDisqualified(nd *sim.Node) map[int]bool {
+	set := map[int]bool{}
+	for _, e := range nd.Events {
+		if e.Disqualify {
+			set[e.Target] = true
+		}
+	}
+	return set
+}
+
+// checkComposition ties the Disqualify callbacks to what End returns ("the overall group key is derived from all chunks
+// of qualified dealers"; "Disqualify flags that ... they got disqualified from the protocol"): at an honest participant
+// whose End succeeded, the group key is the sum of the constant terms A_0 of the verification vectors of exactly the
+// dealers it did not report as disqualified, and (deep) every public key share i is the sum of those dealers'
+// polynomials evaluated at i+1 in the exponent.  In the single-dealer protocol a reported dealer means End fails.
+func checkComposition(g *gen.G, s *sim.Sim, deep bool) {
+	type dealt struct {
+		ok  bool
+		pts []bls381.G2
+	}
+	cache := map[int]*dealt{}
+	dealing := func(d int) *dealt { // the first vector of dealer d, decoded once per scenario
+		if c, ok := cache[d]; ok {
+			return c
+		}
+		c := &dealt{}
+		cache[d] = c
+		v, ok := s.FirstVector[d]
+		if !ok || s.FirstVectorRound[d] != 1 || len(v) != 96*(s.T+1) {
+			return c
+		}
+		for k := 0; k <= s.T; k++ {
+			p, err := bls381.G2Decompress(v[96*k:96*k+96], s.Swapped)
+			if err != nil || !p.InSubgroup() {
+				return c
+			}
+			c.pts = append(c.pts, p)
+		}
+		c.ok = true
+		return c
+	}
+	for _, nd := range honest(s) {
+		D := calledDisqualified(nd)
+		if s.Proto == sim.FeldmanVSSQual {
+			if D[s.Dealer] && nd.Err == nil {
+				g.Fatalf("%v n=%d t=%d: honest node %d reported dealer %d as disqualified, yet its End returned keys\n%s", s.Proto, s.N, s.T, nd.Idx, s.Dealer, dkgTrace(s))
+			}
+		}
+		if nd.Err != nil {
+			continue
+		}
+		var dealers []int
+		if s.Proto == sim.JointFeldman {
+			for d := 0; d < s.N; d++ {
+				if !D[d] {
+					dealers = append(dealers, d)
+				}
+			}
+			if len(D) > s.T {
+				g.Fatalf("%v n=%d t=%d: honest node %d reported %d dealers as disqualified (more than t), yet its End returned keys\n%s", s.Proto, s.N, s.T, nd.Idx, len(D), dkgTrace(s))
+			}
+		} else {
+			dealers = []int{s.Dealer}
+		}
+		vecs := make([][]bls381.G2, 0, len(dealers))
+		sumA0 := bls381.G2Infinity()
+		for _, d := range dealers {
+			dl := dealing(d)
+			if !dl.ok {
+				g.Fatalf("%v n=%d t=%d: honest node %d returned keys with dealer %d qualified, although the first verification vector of that dealer is missing, late or invalid\n%s", s.Proto, s.N, s.T, nd.Idx, d, dkgTrace(s))
+			}
+			vecs = append(vecs, dl.pts)
+			sumA0 = sumA0.Add(dl.pts[0])
+		}
+		if want := bls381.G2Compress(sumA0, s.Swapped); !bytes.Equal(nd.GPK.Encode(), want) {
+			g.Fatalf("%v n=%d t=%d: honest node %d: the group public key %x is not the sum of A_0 over the dealers it left qualified %v (%x); it reported %v as disqualified\n%s", s.Proto, s.N, s.T, nd.Idx, nd.GPK.Encode()[:12], dealers, want[:12], D, dkgTrace(s))
+		}
+		g.Class("groupKeyIsSumOfQualifiedDealers")
+		if !deep {
+			continue
+		}
+		for i := 0; i < s.N; i++ {
+			x := big.NewInt(int64(i + 1))
+			acc := bls381.G2Infinity()
+			for _, pts := range vecs {
+				e := pts[s.T]
+				for k := s.T - 1; k >= 0; k-- { // Horner in the exponent
+					e = e.Mul(x).Add(pts[k])
+				}
+				acc = acc.Add(e)
+			}
+			if want := bls381.G2Compress(acc, s.Swapped); !bytes.Equal(nd.PKs[i].Encode(), want) {
+				g.Fatalf("%v n=%d t=%d: honest node %d: public key share %d is not the sum over the qualified dealers %v of their polynomial at %d in the exponent\n%s", s.Proto, s.N, s.T, nd.Idx, i, dealers, i+1, dkgTrace(s))
+			}
+		}
+		g.Class("publicSharesAreSumOfQualifiedDealers")
 	}
 }
 
@@ -336,6 +437,7 @@ func TestC08_Fairness(t *testing.T) {
 	gen.Run(t, "C08", func(g *gen.G) {
 		s := dkgScenario(g)
 		checkC08(g, s)
+		checkComposition(g, s, false) // a dealer reported as disqualified contributes nothing to the keys
 		if dkgClasses(g, s) {
 			g.NonTrivial()
 		}
